@@ -285,7 +285,7 @@ pub fn check_case(case: &Case) -> (Vec<Violation>, CaseStats) {
 }
 
 /// Oracle M: live heap at quiescence points following a context line must not grow with input.
-pub fn memory_check(args: &[String], n: usize, seed: u64, long_lines: bool) -> (Option<Violation>, serde_json::Value) {
+pub fn memory_check(args: &[String], n: usize, seed: u64, long_lines: bool, many_files: bool) -> (Option<Violation>, serde_json::Value) {
     let config = match make_config(args) {
         Ok(c) => c,
         Err(e) => return (None, json!({"error": e})),
@@ -296,7 +296,8 @@ pub fn memory_check(args: &[String], n: usize, seed: u64, long_lines: bool) -> (
         let gp = GenParams { flavor: gen::Flavor::Git, sections: vec![], max_hunks: 1, pivot: 3, max_run: 8, with_commit_preamble: false, multibyte: false, no_newline_marker: false, similar_pairs: true, no_index_lines: false, no_prefix: false };
         let mut lines: Vec<GLine> = Vec::new();
         let mut tok = 0usize;
-        let per_section = 50;
+        // `many_files`: one hunk per file section, i.e. the number of files grows with the input
+        let per_section = if many_files { 1 } else { 50 };
         let mut s = 0;
         let mut produced = 0;
         while produced < reps {
@@ -353,13 +354,13 @@ pub fn memory_check(args: &[String], n: usize, seed: u64, long_lines: bool) -> (
     let (h4, l4, q4) = measure(4 * n);
     let growth = h4 - h1;
     let input_growth = (l4 - l1) as isize;
-    let info = json!({"args": args, "long_lines": long_lines, "hunks_small": n, "hunks_large": 4 * n, "input_bytes_small": l1, "input_bytes_large": l4, "live_heap_small": h1, "live_heap_large": h4, "quiescence_points_large": q4});
+    let info = json!({"args": args, "long_lines": long_lines, "many_files": many_files, "hunks_small": n, "hunks_large": 4 * n, "input_bytes_small": l1, "input_bytes_large": l4, "live_heap_small": h1, "live_heap_large": h4, "quiescence_points_large": q4});
     if growth > input_growth / 4 {
         return (
             Some(Violation::new(
                 "M-memory",
                 "M:heap-grows-with-input",
-                format!("live heap at a quiescence point after an unchanged line grew by {} bytes when the input grew by {} bytes ({} -> {} hunks; long lines: {}; args {:?})", growth, input_growth, n, 4 * n, long_lines, args),
+                format!("live heap at a quiescence point after an unchanged line grew by {} bytes when the input grew by {} bytes ({} -> {} hunks; long lines: {}; one file per hunk: {}; args {:?})", growth, input_growth, n, 4 * n, long_lines, many_files, args),
             )),
             info,
         );
